@@ -170,7 +170,7 @@ func literalToGo(v ast.Value) interface{} {
 	return nil
 }
 
-func newWorld(flags Flags) *world {
+func newWorld(flags Flags) (*world, error) {
 	w := &world{flags: flags, ws: map[string]*wsClient{}}
 	cfg := &apifu.Config{}
 	lg := logrus.New()
@@ -388,7 +388,7 @@ func newWorld(flags Flags) *world {
 	cfg.Execute = w.executeHook
 	api, err := apifu.NewAPI(cfg)
 	if err != nil {
-		panic(err)
+		return nil, err
 	}
 	w.api = api
 	mux := http.NewServeMux()
@@ -400,7 +400,7 @@ func newWorld(flags Flags) *world {
 	mux.HandleFunc("/graphql", withFeat(api.ServeGraphQL))
 	mux.HandleFunc("/ws", withFeat(api.ServeGraphQLWS))
 	w.srv = httptest.NewServer(mux)
-	return w
+	return w, nil
 }
 
 func defaultCost(on bool) graphql.FieldCost {
